@@ -206,6 +206,46 @@ pub fn check_faults(bytes: &[u8], u: &Universe, key: u64, case_hash: u64, st: &m
             return Err(Fail::new("header-edit-kind", format!("header edit {name} on a {full_len}-byte cache ({header:?}): parse says {got:?}, the layout implies {want:?}")).with(json!({"edit": name})));
         }
     }
+    // ---- the magic / version verdicts do not depend on where the buffer lies or on how much follows the header:
+    // the same edits on a copy at an address = 4 mod 8, cut to 24..=28 bytes and at full length
+    {
+        let mut shifted = AlignedBuf::new(&vec![0u8; full_len + 8]);
+        shifted.bytes_mut()[4..4 + full_len].copy_from_slice(buf.bytes());
+        for (name, _v, h) in header_edits(&header, key) {
+            let want = expected_parse(full_len, Some(&h));
+            if !matches!(want, ExpectedParse::WrongEndianness | ExpectedParse::WrongFormat | ExpectedParse::WrongVersion) {
+                continue;
+            }
+            put_header(&mut shifted.bytes_mut()[4..], &h);
+            for p in [24usize, 25, 26, 27, 28, full_len] {
+                if p > full_len {
+                    continue;
+                }
+                st.evaluations += 1;
+                let got = parse_kind(&shifted.bytes()[4..4 + p]).map_err(|e| Fail::new("parse-panic", format!("parse panicked with header edit {name} at a 4-aligned address: {e}")))?;
+                if got != want {
+                    return Err(Fail::new("header-edit-kind", format!("header edit {name}, buffer of {p} bytes at an address = 4 mod 8: parse says {got:?}, the magic/version rule says {want:?}")).with(json!({"edit": name, "offset": 4, "len": p})));
+                }
+            }
+            // and cut right behind the header at the aligned address
+            put_header(buf.bytes_mut(), &h);
+            for p in [24usize, 25, 27, 31, 32] {
+                if p > full_len {
+                    continue;
+                }
+                st.evaluations += 1;
+                let got = parse_kind(&buf.bytes()[..p]);
+                if let Ok(got) = &got {
+                    if *got != want {
+                        buf.bytes_mut()[..layout::HEADER_LEN].copy_from_slice(&original);
+                        return Err(Fail::new("header-edit-kind", format!("header edit {name}, buffer cut to {p} bytes: parse says {got:?}, the magic/version rule says {want:?}")).with(json!({"edit": name, "len": p})));
+                    }
+                }
+            }
+            buf.bytes_mut()[..layout::HEADER_LEN].copy_from_slice(&original);
+        }
+        st.class("magic/version edits at a 4-aligned address and on buffers cut right behind the header");
+    }
     // ---- foreign headers: magic and version edited together, fully byte-swapped header (file written on a
     // machine of the other endianness). The magic decides first: swapped => endianness, other => format.
     let magics = [header.magic.swap_bytes(), 0u32, header.magic.wrapping_add(1), (key as u32) | 0x0101_0101, u32::from_le_bytes(*b"PK\x03\x04"), u32::from_le_bytes(*b"com.")];
